@@ -229,9 +229,10 @@ HARNESSES = [
     H('adjust_n4_k1_p2_nonfinite', h_adjust, dict(n=4, k=1, n_params=2, special_rows=(0,)),
       bounds='4 rows, 1 summary, 2 parameters; row 0 of the summary and of parameter 0 may be +inf/NaN'),
     H('adjust_n3_k2_p1', h_adjust, dict(n=3, k=2, n_params=1, special_rows=()), bounds='3 rows, 2 summaries, 1 parameter'),
-    H('adjust_n4_k2_p1', h_adjust, dict(n=4, k=2, n_params=1, special_rows=()), bounds='4 rows, 2 summaries, 1 parameter', tiers=('thorough',)),
+    H('adjust_n4_k2_p1', h_adjust, dict(n=4, k=2, n_params=1, special_rows=()), bounds='4 rows, 2 summaries, 1 parameter', tiers=('thorough',),
+      path_timeout=900),
     H('adjust_n5_k2_p1_nonfinite', h_adjust, dict(n=5, k=2, n_params=1, special_rows=(1,)), bounds='5 rows, 2 summaries, non-finite row',
-      tiers=('thorough',)),
+      tiers=('thorough',), path_timeout=1800),
     H('adjust_reused_object', h_adjust, dict(n=3, k=1, n_params=1, special_rows=(), reuse=True),
       bounds='the same LinearAdjustment object adjusts a second sample (3 rows, 1 summary)'),
     H('fixed_point_n3_k1', h_adjust_fixed_point, dict(n=3, k=1), bounds='3 rows, 1 summary'),
